@@ -932,7 +932,7 @@ int ivw_pthread_mutex_init(pthread_mutex_t *m, const pthread_mutexattr_t *a) { r
 int ivw_pthread_mutex_destroy(pthread_mutex_t *m) { return env_thr.mutex_destroy(m); }
 int ivw_pthread_mutex_lock(pthread_mutex_t *m) { return env_thr.mutex_lock(m); }
 int ivw_pthread_mutex_unlock(pthread_mutex_t *m) { return env_thr.mutex_unlock(m); }
-int ivw_pthread_spin_init(pthread_spinlock_t *l, int ps) { return pthread_spin_init(l, ps); }
+int ivw_pthread_spin_init(pthread_spinlock_t *l, int ps) { if (env_thr.lock_reinit) env_thr.lock_reinit((void *)l); return pthread_spin_init(l, ps); }
 int ivw_pthread_spin_lock(pthread_spinlock_t *l) { return env_thr.spin_lock(l); }
 int ivw_pthread_spin_unlock(pthread_spinlock_t *l) { return env_thr.spin_unlock(l); }
 int ivw_pthread_spin_trylock(pthread_spinlock_t *l) { return pthread_spin_trylock(l); }
